@@ -380,9 +380,12 @@ def run_c09(pid):
                 fins += 1
     validate(pid, [o[0] for o in outs], wd, v, stats,
              sig_extra=lambda new, evs: " tag=" + str(new.get("tag")))
+    ol = options_layout(wd, t)
+    log("[%s] growth: OptionsLayout %d builder states, %d runs replayed on Options + sample writer, branches %s, %d mismatches (non-gating)"
+        % (pid, ol["states"], ol["runs"], ol["branches"], ol["mismatches"]))
     rc = v.finish()
     write_evidence(pid, "model_checking", {
-        "states": states, "transitions": trans, "traces_validated_against_impl": runs,
+        "states": states, "transitions": trans, "traces_validated_against_impl": runs, "growth_options_layout": ol,
         "samples": [{k: jobs[i][k] for k in ("fe", "rate", "bps", "channels", "opts", "writes")} for i in (0, 1, 2)],
         "exhaustive": True,
         "rule": "TLC: Encoder.tla over the full grid declared x interval x padding x extra blocks, frames <= %d, all frame sizes (Truthful, "
@@ -399,6 +402,31 @@ def run_c09(pid):
 
 
 # =============================================================================== C15
+def options_layout(wd, t):
+    """Growth beyond the listed properties (non-gating): Options builder calls -> provisional and final metadata layout (OptionsLayout.tla)."""
+    consts = "cPad == {20, 40, 300}\ncSteps == {0, 1, 2}\ncFrames == {1, 3, 4}\n"
+    cfgc = "CONSTANTS\n PadSizes <- cPad\n Steps <- cSteps\n FrameCounts <- cFrames\n MaxOps = %d\n" % (3 if t == "quick" else 4)
+    mp = write_text(os.path.join(wd, "MCOL.tla"), "---- MODULE MCOL ----\nEXTENDS OptionsLayout\n" + consts + "====\n")
+    cp = write_text(os.path.join(wd, "MCOL.cfg"), cfgc + "SPECIFICATION Spec\nVIEW View\nINVARIANT Emit BuildIsFold ProvisionalSorted SingleKinds FinalizeIsSizeNeutral "
+                    "FinalizeKeepsTheRest NoIntervalNoTable DeclaredAlwaysGetsItsTable TableHasThePoints UserBlocksKeepTheirOrder\nCHECK_DEADLOCK FALSE\n")
+    r = tlc(mp, cp, wd, workers=2, timeout=2400)
+    if r["errors"]:
+        sys.stderr.write(r["out"][-2000:])
+        raise ToolError("OptionsLayout model check failed")
+    hs = gen_payloads(r["out"])
+    tp = os.path.join(wd, "trace_options.ndjson")
+    res = run_drive("options", {"out": tp, "histories": hs, "frames": [1, 3, 4]}, wd, tag="options")
+    branches = {}
+    for e in read_ndjson(tp):
+        branches[e.get("branch") or "-"] = branches.get(e.get("branch") or "-", 0) + 1
+    tm = write_text(os.path.join(wd, "TROL.tla"), "---- MODULE TROL ----\nEXTENDS Trace_Options\n" + consts + "====\n")
+    tc = write_text(os.path.join(wd, "TROL.cfg"), cfgc + "SPECIFICATION TSpec\nPOSTCONDITION Post\nCHECK_DEADLOCK FALSE\n")
+    tr = tlc_trace(tm, tc, tp, wd)
+    for ln in tr["rejects"][:5]:
+        log("GROWTH-SPEC-MISMATCH module=OptionsLayout " + ln[:300])
+    return {"states": r["distinct"], "histories": len(hs), "runs": res["runs"], "branches": branches, "mismatches": len(tr["rejects"])}
+
+
 def run_c15(pid):
     t0 = time.time()
     t = tier()
